@@ -453,8 +453,8 @@ class Walker:
 
     def e_YieldFrom(self, n: ast.YieldFrom) -> Term:
         v = self.expr(n.value)
-        self.emit("yield", v, n)
-        return ("yield", v)
+        self.emit("yield", ("star", v), n)          # every element of v, one after the other
+        return ("yield", ("star", v))
 
     def e_JoinedStr(self, n: ast.JoinedStr) -> Term:
         parts = []
@@ -1587,6 +1587,18 @@ def _const_guards(guards: Tuple[Term, ...]) -> Optional[Tuple[Term, ...]]:
     return tuple(out)
 
 
+def _found_guard(guards: Tuple[Term, ...]) -> Optional[Tuple[int, Term]]:
+    """(index, search) of a guard `<search> is not None` where the search yields the first candidate of a loop
+    (one kind of candidate, never None itself) or None."""
+    for i, g in enumerate(guards):
+        gt = T.guard_term(g)
+        if gt[0] == "cmp" and gt[1] == "isnot" and gt[3] == T.NONE and T.is_term(gt[2]) and gt[2][0] == "agg" and gt[2][1] == "first":
+            agg = gt[2]
+            if len(agg[2][1]) == 1 and dict(agg[3]).get("default") == T.NONE and T.strip(agg[2][1][0][1]) != T.NONE and T.strip(agg[2][1][0][1])[0] not in ("phi", "ifexp", "const"):
+                return i, agg
+    return None
+
+
 def fuse_events(events: List[Event]) -> List[Event]:
     """Comprehension fusion on every event: terms and guards are fused, and an event inside a loop
     over a collection that was itself built from guarded / iterated elements is re-expressed as
@@ -1602,6 +1614,24 @@ def fuse_events(events: List[Event]) -> List[Event]:
             changed = True
             continue
         guards = cg
+        found = _found_guard(guards)
+        if found is not None:
+            # `x = <first candidate that ...>; if x is not None: ...`: what happens then happens for that candidate
+            gi, agg = found
+            el = agg[2][1][0]
+            m = {agg: el[1]}
+            term = T.replace(term, m)
+            elg: List[Term] = []
+            for g in el[2]:
+                if g[2] and T.is_term(g[1]) and g[1][0] == "and":
+                    elg += [("g", x, True) for x in g[1][1]]        # (a and b) holds: a holds, b holds
+                else:
+                    elg.append(g)
+            guards = tuple(T.replace(g, m) for i, g in enumerate(guards) if i != gi) + tuple(elg)
+            iters = tuple(T.replace(iters, m)) + tuple(el[3])
+            out.append(Event(len(out), e.kind, term, term, e.node, e.stmt, _tidy_guards(guards, iters), iters, e.tries, e.awaited, e.extra))
+            changed = True
+            continue
         if e.kind == "call" and term[0] != "call":
             changed = True          # (a copy of a collection that is read as the collection: no call of its own)
             continue
@@ -1713,6 +1743,10 @@ def fold_returns(s: Summary) -> Optional[Term]:
         seq = rets[:-1]
     for r in reversed(seq):
         own = [T.guard_term(g) for g in r.guards[common:]]
+        if r.iters:
+            # a return inside a loop (a search): the first candidate that meets the conditions, else what follows
+            val = ("agg", "first", ("bag", (("elem", r.term, tuple(r.guards[common:]), tuple(r.iters)),), "args"), (("default", val),))
+            continue
         if not own:
             val = r.term
             continue
@@ -1798,7 +1832,7 @@ def _resolve_callee(prog: Program, fi: FuncInfo, e: Event) -> Tuple[Optional[Fun
             m = prog.find_method(rv[0], f[2])
             if m is not None and not any(ast.unparse(d) in ("staticmethod", "classmethod", "property") for d in m.node.decorator_list):
                 return m, f[1]
-    if f[0] == "attr" and f[1][0] != "var" and not (fi.cls is not None and fi.params and f[1] == T.var(fi.params[0])):
+    if f[0] == "attr" and not (fi.cls is not None and fi.params and f[1] == T.var(fi.params[0])):
         # a method that a later change added to a package class, called on an expression of that class
         m = _typed_method(prog, fi, e, f[1], f[2])
         if m is not None:
@@ -1819,11 +1853,13 @@ def _resolve_callee(prog: Program, fi: FuncInfo, e: Event) -> Tuple[Optional[Fun
     return None, None
 
 
-def _typed_method(prog: Program, fi: FuncInfo, e: Event, recv: Term, name: str) -> Optional[FuncInfo]:
-    """The method `name` of the (annotation-inferred) class of `recv`, if it is a plain method that a later change
+def _typed_method(prog: Program, fi: FuncInfo, e: Event, recv: Term, name: str, kind: str = "method") -> Optional[FuncInfo]:
+    """The method (or property) `name` of the (annotation-inferred) class of `recv`, if it is one that a later change
     introduced."""
     cands = [c for c in prog.classes.values() if name in c.methods and is_new_helper(c.methods[name])]
     if not cands:
+        return None
+    if kind == "property" and not any(any(ast.unparse(d) == "property" for d in c.methods[name].node.decorator_list) for c in cands):
         return None
     from . import types as TY
     ty = getattr(prog, "_typer", None)
@@ -1850,6 +1886,8 @@ def _typed_method(prog: Program, fi: FuncInfo, e: Event, recv: Term, name: str) 
     if not (isinstance(t, tuple) and len(t) == 2 and t[0] == "cls"):
         return None
     m = prog.find_method(t[1], name)
+    if kind == "property":
+        return m if m is not None and is_new_helper(m) and any(ast.unparse(d) == "property" for d in m.node.decorator_list) else None
     if m is not None and is_new_helper(m) and not any(ast.unparse(d) in ("staticmethod", "classmethod", "property") for d in m.node.decorator_list):
         return m
     return None
@@ -2308,6 +2346,36 @@ def spliced(prog: Program, fi: FuncInfo) -> Summary:
             out = fuse_events(out2)
             for i, ev in enumerate(out):
                 ev.idx = i
+        # a property that a later change added to a package class, read on an expression of that class: its value
+        new_props = {m.name for c2 in prog.classes.values() for m in c2.methods.values()
+                     if not isinstance(m.node, ast.Lambda) and is_new_helper(m) and any(ast.unparse(d) == "property" for d in m.node.decorator_list)}
+        if new_props:
+            out3: List[Event] = []
+            ch3 = False
+            for e in out:
+                m3: Dict[Term, Term] = {}
+                for x in T.subterms((e.term, e.guards, e.iters)):
+                    if x[0] == "attr" and len(x) == 3 and x[2] in new_props and x not in m3:
+                        pm = _typed_method(prog, fi, e, x[1], x[2], "property")
+                        rvx = T.record_values(x[1])
+                        if pm is None and rvx is not None:
+                            pm2 = prog.find_method(rvx[0], x[2])
+                            pm = pm2 if pm2 is not None and any(ast.unparse(d) == "property" for d in pm2.node.decorator_list) else None
+                        if pm is not None and pm.params:
+                            ps = spliced(prog, pm)
+                            rv = fold_returns(ps)
+                            if rv is not None and not any(ev.kind in ("store", "await", "del", "raise", "yield") for ev in ps.events):
+                                locs = {T.var(n): T.var(f"{n}§{pm.name}") for n in ps.locals if n != pm.params[0]}
+                                locs[T.var(pm.params[0])] = x[1]
+                                m3[x] = T.replace(T.strip(rv), locs)
+                if m3:
+                    ch3 = True
+                    out3.append(Event(e.idx, e.kind, T.replace(e.term, m3), replace_stripped(e.raw, m3), e.node, e.stmt, T.replace(e.guards, m3), T.replace(e.iters, m3), e.tries, e.awaited, e.extra))
+                else:
+                    out3.append(e)
+            if ch3:
+                out = out3
+                changed = True
         # `super().<property>`: the value of the base class's property on the same object
         if fi.cls is not None and fi.params:
             SUP = ("call", ("glob", "super"), (), ())
@@ -2398,6 +2466,54 @@ def final(prog: Program, fi: FuncInfo) -> Summary:
             out.append(e)
     if changed:
         out = fuse_events(out)
+        # an iteration variable that holds a tuple and is only ever indexed by constants is the tuple of its components
+        # (`for k, v in d.items(): ... v[0] ... v[1]` is `for k, (v0, v1) in d.items(): ... v0 ... v1`)
+        its_seen: Dict[Term, List[int]] = {}
+        for i, e in enumerate(out):
+            for it in e.iters:
+                if T.is_term(it) and it[0] == "it" and len(it) >= 3:
+                    its_seen.setdefault(it, []).append(i)
+        ren_it: Dict[Term, Term] = {}
+        ren_use: Dict[Term, Dict[Term, Term]] = {}
+        for it, idxs in its_seen.items():
+            pvars = [x for x in T.subterms((it[1],)) if x[0] == "var"]
+            for v in pvars:
+                try:
+                    env = ty.event_env(fi, out[idxs[0]])
+                    vt = ty.as_tuple(TY.Typer.unopt(env.get(v[1], ("any",))))
+                except Exception:
+                    vt = ("any",)
+                if vt[0] != "tuple":
+                    continue
+                n = len(vt[1])
+                ok = True
+                for i in idxs:
+                    e = out[i]
+                    k0 = e.iters.index(it)
+                    blob = (e.term, e.guards, e.iters[k0 + 1:])
+                    uses = sum(1 for x in T.subterms(blob) if x == v)
+                    good = sum(1 for x in T.subterms(blob) if x[0] == "idx" and x[1] == v and x[2][0] == "const" and isinstance(x[2][1], int) and 0 <= x[2][1] < n)
+                    if uses != good:
+                        ok = False
+                        break
+                if not ok:
+                    continue
+                comps = tuple(T.var(f"{v[1]}§{k}") for k in range(n))
+                ren_it[it] = T.replace(ren_it.get(it, it), {v: ("tuple", comps)})
+                ren_use.setdefault(it, {}).update({("idx", v, T.const(k)): comps[k] for k in range(n)})
+        if ren_it:
+            out2: List[Event] = []
+            for e in out:
+                m2: Dict[Term, Term] = {}
+                for it in e.iters:
+                    if it in ren_use:
+                        m2.update(ren_use[it])
+                if m2:
+                    iters2 = tuple(T.replace(ren_it.get(it, it), m2) if it in ren_it else T.replace(it, m2) for it in e.iters)
+                    out2.append(Event(e.idx, e.kind, T.replace(e.term, m2), T.replace(e.raw, m2), e.node, e.stmt, T.replace(e.guards, m2), iters2, e.tries, e.awaited, e.extra))
+                else:
+                    out2.append(e)
+            out = out2
         s = Summary(fi, out, [e for e in out if e.kind == "return"], s.env, s.locals, s.unknowns)
     fi._final = s  # type: ignore[attr-defined]
     return s
